@@ -216,7 +216,13 @@ def gen_cases(ctx, pools, nrand):
                   (["-o", "out", "in", "in2"], v, "two-files"), (["-o", "a", "-o", "out", "in"], v, "repeat-o"), (["-o", "out", "-o", "-", "in"], v, "repeat-o"),
                   (["-k", "-k", "-o", "out", "in"], v, "repeat-k"), (["-ko", "out", "in"], v, "cluster"), (["-kout", "in"], v, "cluster"),
                   (["-ok", "in"], v, "cluster"), (["-o-", "in"], v, "attached-dash"), (["-o", "--", "in"], v, "optarg-dashdash"), (["-o", "-k", "in"], v, "optarg-looks-like-option")]
-            S += [(["-o", "out", "-"], v, "stdin-is-dir")]
+            S += [(["-o", "out", "-"], v, "stdin-is-dir"), (["-"], v, "stdin-is-dir")]
+            # read error in mid-stream: non-blocking pipe holding n bytes (0 / less than a block / exactly one block / one and a
+            # half / several stdio buffers), write end open -> the error flag is raised after 0, 1, 2 ... stored blocks
+            for n in (0, 300, 1000, 1500, 2000, 4096, 5000, 9999):
+                S += [(["-o", "out", "-"], (big * (n // max(1, len(big)) + 1))[:n], "stdin-read-error-after-%d-bytes" % n),
+                      (["-"], (v * (n // max(1, len(v)) + 1))[:n], "stdin-read-error-after-%d-bytes" % n)]
+            S += [(["-k", "-o", "old.out", "-"], (big * 3)[:2500], "stdin-read-error-after-2500-bytes")]
             if tool == "w2x":
                 ws = V[-1] if V else v
                 for doc, kd in [(v, "valid"), (big, "large")]:
@@ -245,6 +251,8 @@ def gen_cases(ctx, pools, nrand):
                 c = mk(tool, fl, args, doc, kd)
                 if kd == "stdin-is-dir":
                     c["stdin"] = "DIR"
+                elif kd.startswith("stdin-read-error-after-"):
+                    c["stdin"] = ("NBPIPE", doc)
                 cases.append(c)
     # random part
     for n in range(nrand):
@@ -286,6 +294,8 @@ def gen_cases(ctx, pools, nrand):
         c["files"][b"in2"] = rng.choice(P["valid"])
         if rng.chance(1, 25):
             c["stdin"] = "DIR"
+        elif rng.chance(1, 12):
+            c["stdin"] = ("NBPIPE", (doc * 40)[:rng.choice([0, 1, 999, 1000, 1001, 1500, 2000, 3000, 4095, 4096, 4097, 8192, 12000])])
         elif rng.chance(1, 6):
             c["stdin"] = rng.choice(P[rng.choice(["valid", "invalid", "empty", "large"])])
         cases.append(c)
@@ -307,7 +317,7 @@ def parse_model_parse(line):
 def selected_input(case, fname):
     """what the environment delivers for the input name: 'FAIL' | 'ERR' | bytes"""
     if fname == b"-":
-        return "ERR" if case["stdin"] == "DIR" else case["stdin"]
+        return "ERR" if (case["stdin"] == "DIR" or isinstance(case["stdin"], tuple)) else case["stdin"]
     return cli.in_result(case, fname)
 
 
@@ -481,7 +491,7 @@ def run(ctx):
     # ---- model, phase 2 and comparison
     mlines, mlib = [], []
     for c, pm in zip(cases, parsed):
-        sin = "ERR" if c["stdin"] == "DIR" else hx(c["stdin"])
+        sin = "ERR" if (c["stdin"] == "DIR" or isinstance(c["stdin"], tuple)) else hx(c["stdin"])
         inp, lr, ook = "FAIL", None, "0"
         if isinstance(pm, dict):
             if pm["file"] is not None:
@@ -515,11 +525,11 @@ def run(ctx):
             # the in-process library call itself died (a matter for C01/C02): only the crash checks apply to the tool
             lib_unavailable += 1
             for b in judge(ctx, c, o, None, None, ht):
-                concrete.append({"what": b, "case": cj, "rc": o["rc"], "stderr": o["stderr"][-1500:], "note": "the in-process library call crashed as well"})
+                concrete.append({"what": b, "case": cj, "rc": o["rc"], "stderr": o["stderr"][-1500:].decode("latin-1"), "note": "the in-process library call crashed as well"})
             continue
         for b in judge(ctx, c, o, orc, olr, ht):
             if True:
-                concrete.append({"what": b, "case": cj, "rc": o["rc"], "stdout": o["stdout"][:400], "stderr": o["stderr"][-1500:],
+                concrete.append({"what": b, "case": cj, "rc": o["rc"], "stdout": o["stdout"][:400], "stderr": o["stderr"][-1500:].decode("latin-1"),
                                  "files_changed": {k: (hx(v[:200]) if isinstance(v, bytes) else v) for k, v in o["changed"].items()},
                                  "library_in_process": {"code": olr[0], "bytes": len(olr[2])} if olr else None})
         # correspondence
